@@ -373,8 +373,11 @@ class OpGen:
             return "%d + 1" % base
         if r < 0.96 and self.cfg.get("commented_values"):
             return "%d # note%d" % (base, self.n)  # one expression followed by an end-of-line comment
-        if r < 0.98:
+        if r < 0.975:
             return '"w${toString %d}"' % base
+        if r < 0.99:
+            # multi-line values (canonical spelling at indent 0)
+            return self.rng.choice(["[\n  %d\n  %d\n]", "{\n  k = %d;\n  j = %d;\n}", "''\n  foo %d\n  bar %d\n''"]) % (base, base + 1)
         return "./v%d" % base
 
     def pick(self, dm: model.DocModel, *, scoped_bias: float = 0.0, allow_fail: bool = True) -> dict:
